@@ -584,12 +584,15 @@ class WriterThread(threading.Thread):
 
         elif event.kind == EventKind.DELETE:
             # delete the referenced events
-            try:
-                ids = set(
-                    (bytes_from_hex(tag[1]) for tag in event.tags if tag[0] == "e")
-                )
-            except IndexError:
-                ids = []
+            # an e tag without a value or with a value that is not hex references nothing;
+            # it must neither hide the other references nor lose the deletion event itself
+            ids = set()
+            for tag in event.tags:
+                if len(tag) > 1 and tag[0] == "e":
+                    try:
+                        ids.add(bytes_from_hex(tag[1]))
+                    except ValueError:
+                        pass
             if not ids:
                 return
             with INDEXES["authors"].scanner(
